@@ -159,44 +159,60 @@ func raceDelta() string {
 	return d
 }
 
-// raceFingerprint summarises a race report by the innermost repository frames
-// of the two accesses (function names only: stable under line shifts).
+// raceFingerprint summarises a race report by the repository function that
+// performs a WRITE to the racy location (function names only: stable under line
+// shifts).  Which earlier access the detector still remembers varies (its
+// shadow cells are evicted pseudo-randomly), the writer is the stable part.
 func raceFingerprint(report string) (fp string, inSim bool) {
 	blocks := strings.Split(report, "\n\n")
-	var tops []string
+	var writers, all []string
+	n := 0
 	for _, b := range blocks {
-		if !(strings.Contains(b, "Read at") || strings.Contains(b, "Write at") || strings.Contains(b, "Previous read at") || strings.Contains(b, "Previous write at") ||
-			strings.Contains(b, "Previous atomic") || strings.Contains(b, "Atomic")) {
+		hdr := strings.TrimSpace(b)
+		isAccess := strings.HasPrefix(hdr, "Read at") || strings.HasPrefix(hdr, "Write at") || strings.HasPrefix(hdr, "Previous read at") || strings.HasPrefix(hdr, "Previous write at") ||
+			strings.HasPrefix(hdr, "Previous atomic") || strings.HasPrefix(hdr, "Atomic")
+		if !isAccess {
 			continue
 		}
+		isWrite := strings.HasPrefix(hdr, "Write at") || strings.HasPrefix(hdr, "Previous write at") || strings.Contains(strings.SplitN(hdr, "\n", 2)[0], "atomic write")
 		top := ""
-		first := true
-		for _, m := range frameRe.FindAllStringSubmatch(b, -1) {
+		for fi, m := range frameRe.FindAllStringSubmatch(b, -1) {
 			fn, file := m[1], m[2]
-			if first {
-				first = false
-				if strings.Contains(file, "/verifrt/") && !strings.Contains(file, "/verifrt/singleflight/") {
-					inSim = true
-				}
-			}
-			if strings.Contains(file, "/verifrt/cmd/") || strings.Contains(fn, "verifrt/cmd/") {
+			simFrame := strings.Contains(file, "/verifrt/") && !strings.Contains(file, "/verifrt/singleflight/") && !strings.Contains(file, "/verifrt/cmd/")
+			if simFrame && (strings.HasSuffix(file, "/verifrt/stubs.go") || strings.Contains(file, "/verifrt/simos/")) {
+				// stub of a library object: the race belongs to the caller
 				continue
 			}
-			if strings.Contains(fn, "github.com/corazawaf/coraza/v3") && !strings.Contains(file, "/verifrt/sim") && !strings.HasSuffix(file, "/verifrt/world.go") && !strings.HasSuffix(file, "/verifrt/sched.go") {
+			if fi < 4 && simFrame && top == "" {
+				// the access happened inside the simulator (possibly through a
+				// runtime helper such as growslice / slicecopy)
+				inSim = true
+			}
+			if strings.Contains(file, "/verifrt/cmd/") || strings.Contains(fn, "verifrt/cmd/") || simFrame {
+				continue
+			}
+			if top == "" && strings.Contains(fn, "github.com/corazawaf/coraza/v3") {
 				top = strings.TrimPrefix(fn, "github.com/corazawaf/coraza/v3/")
-				break
 			}
 		}
 		if top == "" {
 			top = "?"
 		}
-		tops = append(tops, top)
-		if len(tops) == 2 {
+		all = append(all, top)
+		if isWrite {
+			writers = append(writers, top)
+		}
+		n++
+		if n == 2 {
 			break
 		}
 	}
-	sort.Strings(tops)
-	return strings.Join(tops, "|"), inSim
+	sort.Strings(writers)
+	sort.Strings(all)
+	if len(writers) > 0 {
+		return "W:" + writers[0], inSim
+	}
+	return strings.Join(all, "|"), inSim
 }
 
 // execRun runs one scenario of c in world w with panic capture.
@@ -410,7 +426,7 @@ func shrink(c *Check, tier Tier, seed uint64, tapes map[string][]uint32, fp stri
 	}
 	maxTries := 400
 	if c.Isolated || c.NeedsRace {
-		maxTries = 60
+		maxTries = 24 // each candidate is a fresh process
 	}
 	names := []string{"fault", "sched", "map", "pool", "work"}
 	improved := true
@@ -509,7 +525,7 @@ type evidence struct {
 func parentMain(c *Check, tier Tier, seed uint64, nworkers int, evidencePath, replayDir, knownPath, scratch string) int {
 	start := time.Now()
 	// replay files of earlier runs of this property are stale
-	if old, _ := filepath.Glob(filepath.Join(replayDir, c.ID, "*.json")); len(old) > 0 {
+	if old, _ := filepath.Glob(filepath.Join(replayDir, c.ID, "*.json")); len(old) > 0 && os.Getenv("VSIM_EXTRA_EVIDENCE") == "" {
 		for _, f := range old {
 			os.Remove(f)
 		}
@@ -705,6 +721,14 @@ func parentMain(c *Check, tier Tier, seed uint64, nworkers int, evidencePath, re
 		"unchecked_by_design": c.Unchecked,
 		"go":                  runtime.Version(),
 		"race_detector":       verifrt.RaceEnabled,
+	}
+	if extra := os.Getenv("VSIM_EXTRA_EVIDENCE"); extra != "" {
+		if b, err := os.ReadFile(extra); err == nil {
+			var ev2 map[string]any
+			if json.Unmarshal(b, &ev2) == nil {
+				cov["secondary_build"] = map[string]any{"tags": "coraza.rule.multiphase_evaluation", "evidence": ev2}
+			}
+		}
 	}
 	if len(il) > 0 {
 		cov["distinct_interleavings"] = len(il)
